@@ -784,3 +784,33 @@ func zzHoleBytes(s *State, a []Value) Value {
 	}
 	return ss
 }
+
+func init() { intrinsics["zzFreshOutcome"] = zzFreshOutcome }
+
+// zzFreshOutcome runs the harness function zzParseOutcome(path, config) in a
+// clone of the initial (post-init) state: the outcome of the same call made
+// first in a fresh process.
+func zzFreshOutcome(s *State, a []Value) Value {
+	w := s.W
+	fn := w.P.Pkg.Func("zzParseOutcome")
+	if fn == nil {
+		s.abort("zzParseOutcome is not defined by the harness")
+	}
+	st := w.P.NewState(w)
+	for k, v := range s.holes {
+		if !strings.HasPrefix(k, "in:") && !strings.HasPrefix(k, "ax:") {
+			st.holes[k] = v
+		}
+	}
+	st.pushCall(&FuncV{Fn: fn}, []Value{a[0], a[1]}, -1, false)
+	nf := st.frames[len(st.frames)-1]
+	nf.nested = true
+	saved := w.inNested
+	w.inNested = 0
+	kids := w.RunPath(st)
+	w.inNested = saved
+	if len(kids) > 0 || !nf.returned {
+		s.abort("fresh-state Parse did not run to completion (status %d %s)", st.Status, st.AbortMsg)
+	}
+	return nf.retVal
+}
